@@ -12,7 +12,7 @@
  *   O                         write the format file and gd_open() read-only
  *   G <field>                 print "g <spf> <frame_offset> <nframes> <base> <n> <f64 bits>*n"
  *                             = gd_getdata(field, first_sample = base, ..., GD_FLOAT64) to the end, where base is
- *                             the first sample at or after the frame offset that can be read
+ *                             the first sample (from 0, i.e. including the padding below the frame offset) that can be read
  *                             (element j is sample base + j)
  *   Q <field> <value f64 bits hex> <field_start> <field_end>
  *                             print one of: "ok <bits>"  "nonfinite <bits>"  "err <NAME|code>"  "HANG"
@@ -159,8 +159,10 @@ int main(int argc, char **argv)
       {
         /* a PHASE with a negative shift has no data at its very first samples */
         int k;
-        off64_t base = fo * spf;
-        for (k = 0; k < 16; k++) {
+        /* from sample 0: below the frame offset the library pads (0 for integer types, NaN for floating point ones) */
+        off64_t base = 0;
+        (void)fo;
+        for (k = 0; k < 16 + (int)(fo * spf); k++) {
           n = gd_getdata64(D, name, 0, base + k, 0, (size_t)(1 << 20), GD_FLOAT64, buf);
           if (gd_error(D) || n > 0) break;
         }
